@@ -118,7 +118,10 @@ ParseVerdict(c) ==
   \o (IF c.measure /\ c.alloc > AllocBound(c) THEN <<"C03:allocation out of proportion">> ELSE <<>>)
   \o (IF c.measure /\ c.nev > EventBound(c) /\ r.class # "grey" THEN <<"C03:events out of proportion">> ELSE <<>>)
   \o (IF r.class = "incomplete" /\ KnowsEnd(c) /\ c.outcome = "ok" /\ ~Refused(c)
-      THEN <<"C03:truncated input not reported as an error">> ELSE <<>>)
+      THEN <<"C03:truncated input not reported as an error">>
+           \* (JSON: tokens whose bracket/comma/colon structure is not that of a JSON text - C04's last clause)
+           \o (IF c.fmt = "json" THEN <<"C04:a token sequence that is no JSON text (its brackets are left open) was accepted">> ELSE <<>>)
+      ELSE <<>>)
   \o (IF r.class = "incomplete" /\ IsDecEntry(c.entry) /\ c.outcome = "ok" /\ ~Refused(c)
       THEN <<"C18:truncated stream reported as clean end">> ELSE <<>>)
   \o (IF r.class = "complete" /\ ~Accepted(c) /\ ~(r.mayrej /\ Refused(c))
@@ -434,7 +437,15 @@ ConcVerdict(c) ==
 \* ---- kind "goreuse" (C17: iterator and unfolder) -------------------------------------
 GoReuseVerdict(c) ==
   LET x == c.extra IN
-  IF c.outcome # "ok" THEN <<"C17:outcome:" \o c.outcome>>
+  IF c.outcome # "ok" THEN <<"C17:outcome:" \o c.outcome, "C12:outcome:" \o c.outcome>>
+  \* sub.afterfail (C12): a Fold of the history failed half-way (an unsupported member met after the object was opened);
+  \* the value folded next is still owed the documented events - those a new iterator emits, judged by FoldVerdict elsewhere
+  ELSE IF "afterfail" \in DOMAIN c.sub
+       THEN (IF x.histerr = "" THEN <<"INFRA:the history was expected to fail">>
+             ELSE IF x.errR # x.errF THEN <<"C12:after a failed Fold the iterator refuses or accepts the next value unlike a new iterator">>
+             ELSE IF x.errR = "" /\ (~SeqEquiv({"nan", "anyorder"}, Values(x.evF), Values(x.evR)) \/ CRun(x.evR).ok # CRun(x.evF).ok)
+                  THEN <<"C12:after a failed Fold the iterator emits other events for the next value than the documented ones (a new iterator's)">>
+             ELSE <<>>)
   ELSE IF x.histerr # "" THEN <<>>
   ELSE IF (x.errR = "") # (x.errF = "") THEN <<"C17:the probe succeeds on one of reused/fresh instance and fails on the other">>
   ELSE IF c.sub.component = "iter"
